@@ -2,7 +2,7 @@
 import json
 import props.rel as rel
 
-LEVEL = "model_checking"
+LEVEL = "exploration"     # cases are drawn from the specification under the TLC seed (a sample of a large space), expected results computed by TLC
 
 
 def run(ctx):
